@@ -246,6 +246,7 @@ struct System {
         bool engine_rebuild = false;  // created by the engine to re-create an already checked state
         int built_len = -1;           // length of the history published when the state was created
         bool cache_ok = false;
+        bool struct_ok = true;
         std::string cache;
         Ledger* new_ledger() {
             ledgers.emplace_back(new Ledger());
@@ -443,8 +444,10 @@ struct System {
             ok = false;
         }
         for (auto& e : w.errs) {
-            str_fail(e.compare(0, 6, "stats.") == 0 ? "stats" : "structure", std::string(which) + ": " + e + "  structure: " + w.dump.substr(0, 300));
+            // the independent walk reports only what verify() did not already reject (one defect, one signature)
+            if (ok) str_fail(e.compare(0, 6, "stats.") == 0 ? "stats" : "structure", std::string(which) + ": " + e + "  structure: " + w.dump.substr(0, 300));
             ok = false;
+            break;
         }
         if (t.size() != w.st_size || t.get_stats().size != w.st_size || t.get_stats().leaves != w.st_leaves ||
             t.get_stats().inner_nodes != w.st_inner || t.get_stats().nodes() != w.st_leaves + w.st_inner) {
@@ -507,7 +510,9 @@ struct System {
             ws.push_back(&wb);
         }
         ok = check_ledgers(s, ws) && ok;
-        if (ok) {
+        s.struct_ok = ok;
+        if (ok || ((G().oracle & 1) && !wa.cyclic() && !wb.cyclic())) {
+            // (with a broken structure the semantic consequences are still evaluated for the semantic check)
             check_contents(*s.a, s.ma, "a");
             if (s.b) check_contents(*s.b, s.mb, "b");
         }
@@ -731,7 +736,7 @@ struct System {
         }
         if (real) {
             Walk wa = post_checks(s);
-            if (have_it && wa.errs.empty()) {
+            if (have_it && !wa.cyclic()) {
                 KVs mv = mcontents(m);
                 int lo = lower_idx(mv, rkey), hi = upper_idx(mv, rkey);
                 int p = wa.pos(rleaf, rslot);
@@ -740,11 +745,20 @@ struct System {
                 if (rderef.first != rkey || (is_map && rderef.second != rval))
                     sem_fail("return", vh::fmt("insert(%d) returned an iterator to (%d,%d), expected (%d,%d)", rkey, rderef.first, rderef.second, rkey, rval));
             }
+            // The engine does not observe a state whose transition failed.  For the semantic check a state that is
+            // structurally broken (reported by C02 only) is still queried once, so that the observable consequences
+            // of the same defect are reported under C01.
+            if (!s.struct_ok && G().oracle == 1 && G().consequence_pass) {
+                if (G().in_consequence_pass) *G().in_consequence_pass = 1;
+                Observer<TC>::run(*this, s);
+                if (G().in_consequence_pass) *G().in_consequence_pass = 0;
+            }
         }
     }
 
     void observe(State& s) {
         bind(s);
+        vh::at_op((cname() + ".observe").c_str());
         Observer<TC>::run(*this, s);
     }
 };
